@@ -40,7 +40,13 @@ PROP = {
                    "reserve under the faults the record stands for (C04_hash_tables_are_model); the only manager blocks a failing operation may keep are pool buffers of the "
                    "chained kinds, booked as St.bufs and given back by Clear / destruction (C04_hash_pool_traffic); at the level of the system the harness drives (two "
                    "containers and a node handle, every reachable state: C04_hash_reachable_ok) a failing ins / rem / ext / reins / reserve / copyTo leaves both containers and "
-                   "the handle exactly as they were (C04_hash_step_strong). Tied to the code by c03_htledger (see C03)."),
+                   "the handle exactly as they were (C04_hash_step_strong). Tied to the code by c03_htledger (see C03). "
+                   "Hash multimap WITH the ledger (Momo.MML, the layer over the C08 model described under C03): Add(key, value), Add(keyIter, value), InsertKey, "
+                   "Remove(keyIter, index), RemoveKey, the constructors and copy assignment, for every state, fault record (key-table faults, refused pool block, "
+                   "refused heap storage, throwing value creator / copy / assignment, refused Array::Shrink - swallowed) and frame: a failure returns the very same "
+                   "container (key table, every value array with its representation, every block and object on the books) and the monitor holds what it held "
+                   "(C04_multimap_*_strong, C04_multimap_constructor_clean, C04_multimap_step_strong; Remove(pairFilter) is basic only: C04_multimap_usable_after). "
+                   "Tied to the code by c03_mmledger (see C03)."),
     "level_note": ("Trusted: Lean kernel + standard axioms, harness (g++, ASan/UBSan, -fno-access-control). The sweep covers every k for each reached "
                    "operation instance, but the instances (container kind, size, element category) are a finite chosen set. Documented exceptions "
                    "(HashMap.h items 4, 5: Key&& argument may change; Remove/Extract with key and value both not nothrow-anyway-assignable) are "
